@@ -367,6 +367,7 @@ class HttpStreamSession:
         "_capabilities",
         "_client",
         "_compression_level",
+        "_deferred_error",
         "_external_config",
         "_finished",
         "_header",
@@ -397,6 +398,7 @@ class HttpStreamSession:
         header: object | None = None,
         retry_config: HttpRetryConfig | None = None,
         compression_level: int | None = None,
+        deferred_error: RpcError | None = None,
     ) -> None:
         """Initialize with HTTP client, method details, and initial state."""
         self._client = client
@@ -417,6 +419,10 @@ class HttpStreamSession:
         self._header = header
         self._retry_config = retry_config
         self._compression_level = compression_level
+        # An error the init response carried *after* output that was already
+        # received (header, data batches).  Raised once that output has been
+        # handed to the caller, which is where the pipe transports raise it.
+        self._deferred_error = deferred_error
         self._capabilities: HttpServerCapabilities | None = None
 
     def _maybe_externalize_request(self, body: bytes) -> bytes:
@@ -634,6 +640,10 @@ class HttpStreamSession:
         yield from self._pending_batches
         self._pending_batches.clear()
 
+        if self._deferred_error is not None:
+            err, self._deferred_error = self._deferred_error, None
+            raise err
+
         if self._finished:
             return
 
@@ -707,6 +717,10 @@ class HttpStreamSession:
             if len(self._pending_batches) > 1:
                 raise RuntimeError(_multi)
             return self._pending_batches.pop(0), self._resume_token()
+
+        if self._deferred_error is not None:
+            err, self._deferred_error = self._deferred_error, None
+            raise err
 
         if self._finished or self._state_bytes is None:
             self._finished = True
@@ -1011,6 +1025,7 @@ def _init_http_stream_session(
     call_state_bytes: bytes | None = None
     pending_batches: list[AnnotatedBatch] = []
     finished = False
+    deferred_error: RpcError | None = None
 
     try:
         while True:
@@ -1042,9 +1057,17 @@ def _init_http_stream_session(
                 batch, custom_metadata, external_config, on_log, reader.ipc_validation
             )
             pending_batches.append(AnnotatedBatch(batch=resolved_batch, custom_metadata=resolved_cm))
-    except RpcError:
-        _drain_stream(reader)
-        raise
+    except RpcError as exc:
+        if not pending_batches and header is None:
+            _drain_stream(reader)
+            raise
+        # The first producer turn is folded into /init, so its error arrives
+        # in the same response as the header and the batches produced before
+        # it.  Raising here would throw those away; keep them and raise once
+        # they have been consumed (as a pipe client sees it: header, batches,
+        # then the error).
+        deferred_error = exc
+        finished = True
 
     _drain_stream(reader)
 
@@ -1063,6 +1086,7 @@ def _init_http_stream_session(
         header=header,
         retry_config=retry_config,
         compression_level=compression_level,
+        deferred_error=deferred_error,
     )
 
 
